@@ -48,7 +48,11 @@ func (p *C12) Generate(seed uint64, run int) *Case {
 		if !big && r.Chance(1, 3) {
 			// medium-size pieces (a few dozen items, several modulations): enough
 			// for work to be split, batched or buffered
-			b = p.w.GenTextN(r, 16+r.Intn(60))
+			n := 16 + r.Intn(60)
+			if r.Chance(1, 6) {
+				n = 190 + r.Intn(300) // several hundred items
+			}
+			b = p.w.GenTextN(r, n)
 		}
 	case 3, 4, 5:
 		b = p.w.GenDocCmd(r, big)
@@ -93,6 +97,16 @@ func (p *C12) Generate(seed uint64, run int) *Case {
 	if b.Class != "gen" && b.Class != "text" && r.Chance(1, 4) {
 		p.w.WithDict(r, &b)
 		c.Labels = append(c.Labels, "user-dictionary")
+	} else if b.Class == "doc" && r.Chance(1, 25) {
+		// a dictionary named relatively: it exists beside the input FILE, not in
+		// the working directory (every input path must treat the name alike)
+		// (self-contained: built-in attributes only)
+		chordY := "- name: RelChord\n  meta:\n    display: rel\n  attributes:\n    - Perfect1\n    - Major2\n    - Perfect5\n"
+		names := []string{"RelChord", "rel"}
+		b.Files = map[string]*simrt.FileSpec{"/sim/piece/chords.yml": {Data: []byte(chordY)}}
+		b.Argv = append(b.Argv, "--chord", "chords.yml")
+		b.Input = append(b.Input, []byte("- chord:\n    degree: \"1\"\n    name: \""+model.Pick(r, names[:2])+"\"\n  values:\n    - \"1\"\n")...)
+		c.Labels = append(c.Labels, "relative-dictionary")
 	}
 	if _, heavy := c.HasLabel("input:above-round-size"); heavy {
 		// a reduced family: only the input paths (every process has to read
@@ -118,6 +132,10 @@ func (p *C12) Generate(seed uint64, run int) *Case {
 		return c
 	}
 	cpus := model.Pick(r, []int{2, 4, 8, 16})
+	if len(b.Input) > 8000 && r.Chance(1, 2) {
+		// larger inputs also under many CPUs (work split into more pieces)
+		cpus = model.Pick(r, []int{13, 14, 15, 16, 32})
+	}
 	base := b.StepOf(r.U64())
 	base.Note = "base"
 	base.CPUs = cpus
@@ -145,7 +163,7 @@ func (p *C12) Generate(seed uint64, run int) *Case {
 	add("cpus", func(st *Step) { st.CPUs = 1 })
 	if r.Chance(1, 2) {
 		add("cpus", func(st *Step) {
-			st.CPUs = model.Pick(r, []int{2, 3, 5, 16, 64})
+			st.CPUs = model.Pick(r, []int{2, 3, 5, 6, 7, 12, 13, 14, 15, 16, 24, 64})
 			st.SchedPolicy = model.Pick(r, schedPolicies)
 		})
 	}
@@ -168,11 +186,15 @@ func (p *C12) Generate(seed uint64, run int) *Case {
 			add("inpath:devnull", func(st *Step) { st.Stdin.Kind = "chardev" })
 		}
 		add("inpath:file", func(st *Step) {
-			st.Argv = append(st.Argv, inPath)
+			path := inPath
+			if _, rel := c.HasLabel("relative-dictionary"); rel {
+				path = "/sim/piece/in.yml"
+			}
+			st.Argv = append(st.Argv, path)
 			if st.Files == nil {
 				st.Files = map[string]*simrt.FileSpec{}
 			}
-			st.Files[inPath] = &simrt.FileSpec{Data: st.Stdin.Data, Plan: GenPlan(r)}
+			st.Files[path] = &simrt.FileSpec{Data: st.Stdin.Data, Plan: GenPlan(r)}
 			st.Stdin = nil
 		})
 	}
@@ -226,6 +248,26 @@ func (p *C12) Generate(seed uint64, run int) *Case {
 			st.Argv = append(st.Argv, "-o", outPath)
 			st.MapPolicy = "shuffle"
 		})
+	}
+	if _, hasDict := c.HasLabel("user-dictionary"); hasDict && r.Chance(1, 2) {
+		// history: an earlier run of the same command saw dictionaries of the same
+		// paths and sizes but other content; whatever it left behind (a cache, an
+		// output file) still exists when the command runs again
+		warm := len(c.Steps)
+		add("history:warm-up", func(st *Step) {
+			for k, f := range st.Files {
+				if strings.HasSuffix(k, ".yml") {
+					d := bytes.ReplaceAll(f.Data, []byte("Major3"), []byte("Minor3"))
+					d = bytes.ReplaceAll(d, []byte("Perfect5"), []byte("Perfect4"))
+					d = bytes.ReplaceAll(d, []byte("\"b10\""), []byte("\"#10\""))
+					d = bytes.ReplaceAll(d, []byte("Major9"), []byte("Minor9"))
+					cp := *f
+					cp.Data = d
+					st.Files[k] = &cp
+				}
+			}
+		})
+		add("history", func(st *Step) { st.CarryFrom = &warm })
 	}
 	// the real runtime: two plain repetitions (not replayable; see Appendix B)
 	add("plain", func(st *Step) { st.Plain = true })
@@ -328,12 +370,15 @@ func dimOf(note string) string {
 		return "outpath"
 	case strings.HasPrefix(note, "maporder"):
 		return "maporder"
+	case strings.HasPrefix(note, "history"):
+		return "history"
 	}
 	return note
 }
 
 func (p *C12) Evaluate(env *Env, c *Case) (*Outcome, error) {
 	out := &Outcome{Results: make([]*Result, len(c.Steps))}
+	prepared := make([]*Step, len(c.Steps)+1)
 	if _, heavy := c.HasLabel("input:above-round-size"); heavy {
 		// the few processes of a megabyte-sized family run side by side
 		var wg sync.WaitGroup
@@ -353,7 +398,22 @@ func (p *C12) Evaluate(env *Env, c *Case) (*Outcome, error) {
 		}
 	} else {
 		for i := range c.Steps {
-			r, err := env.Exec(&c.Steps[i])
+			st := c.Steps[i]
+			prepared[i] = &st
+			if st.CarryFrom != nil && *st.CarryFrom < i && out.Results[*st.CarryFrom] != nil {
+				// durable state: what the earlier run created is still there
+				files := map[string]*simrt.FileSpec{}
+				for k, v := range st.Files {
+					files[k] = v
+				}
+				for name, data := range out.Results[*st.CarryFrom].Created {
+					if _, defined := files[name]; !defined {
+						files[name] = &simrt.FileSpec{Data: append([]byte{}, data...)}
+					}
+				}
+				st.Files = files
+			}
+			r, err := env.Exec(&st)
 			if err != nil {
 				return nil, err
 			}
@@ -369,6 +429,9 @@ func (p *C12) Evaluate(env *Env, c *Case) (*Outcome, error) {
 	var mms []mm
 	for i := 1; i < len(c.Steps); i++ {
 		st, r := &c.Steps[i], out.Results[i]
+		if st.Note == "history:warm-up" {
+			continue // another input: only there to leave state behind
+		}
 		// a variant that carries an injected fault (rename onto the -o target
 		// fails with EXDEV) may legitimately end in a signalled failure; what it
 		// may not do is exit 0 with a missing or different result
@@ -402,7 +465,11 @@ func (p *C12) Evaluate(env *Env, c *Case) (*Outcome, error) {
 		}
 		for _, idx := range []int{0, m.i} {
 			for rep := 0; rep < 2; rep++ {
-				r2, err := env.Exec(&c.Steps[idx])
+				again := &c.Steps[idx]
+				if prepared[idx] != nil {
+					again = prepared[idx]
+				}
+				r2, err := env.Exec(again)
 				if err != nil {
 					return nil, err
 				}
@@ -554,11 +621,20 @@ func (p *C12) Shrinks(c *Case) []*Case {
 	// keep the base and one variant
 	if len(c.Steps) > 2 {
 		for i := 1; i < len(c.Steps); i++ {
-			if c.Steps[i].Plain {
+			if c.Steps[i].Plain || c.Steps[i].Note == "history:warm-up" {
 				continue
 			}
 			d := c.Clone()
-			d.Steps = []Step{d.Steps[0], d.Steps[i]}
+			if cf := c.Steps[i].CarryFrom; cf != nil {
+				one := 1
+				d.Steps = []Step{d.Steps[0], d.Steps[*cf], d.Steps[i]}
+				d.Steps[2].CarryFrom = &one
+				if len(c.Steps) == 3 {
+					continue
+				}
+			} else {
+				d.Steps = []Step{d.Steps[0], d.Steps[i]}
+			}
 			out = append(out, d)
 		}
 	}
